@@ -1,14 +1,126 @@
 /-
   C01 — Every solver returns the weighted least-squares minimiser.
-  Spec-level statements shared by all algorithms (per-algorithm theorems live in
-  Props/C01/Env.lean, Chol.lean, Gso.lean, Svd.lean, Adj.lean).
--/
-import Gama.Model.Ls.Common
-namespace Gama.Props.C01
-open Gama Gama.Ls
 
-/-- placeholder obligation replaced by the LS spec-layer corollaries (LS1, LS3) -/
-theorem errkind_names_injective : ∀ a b : ErrKind, a.name = b.name → a = b := by
-  intro a b; cases a <;> cases b <;> simp [ErrKind.name]
+  Spec-level statements shared by all algorithms: what follows, for ANY (A, b, P, S), from the
+  one predicate `Gama.LS.IsLSSolution A b P S x v rtr` (v = A x − b, Aᵀ P v = 0, rtr = vᵀ P v,
+  x ⟂_S ker A) that every solver model is proved to establish for its output
+  (per-algorithm theorems: Props/C01/Env.lean, Chol.lean, Gso.lean, Svd.lean, Adj.lean).
+  P symmetric (positive semi-)definite is an explicit hypothesis.  Proofs: Lemmas/LS/*.lean
+  (LS1, LS3, LS4).  Non-vacuity: the 4×3 rank-2 weighted problem of Lemmas/LS/Example.lean.
+-/
+import Gama.Lemmas.LS
+import Gama.Lemmas.LS.Example
+namespace Gama.Props.C01
+open Gama Gama.LS Matrix Finset
+
+set_option linter.unusedSectionVars false
+
+variable {𝕜 : Type*} [Field 𝕜] [LinearOrder 𝕜] [IsStrictOrderedRing 𝕜]
+variable {m n k : Type*} [Fintype m] [Fintype n] [Fintype k]
+variable {A : Matrix m n 𝕜} {b : m → 𝕜} {P : Matrix m m 𝕜} {S : Finset n}
+variable {x x' : n → 𝕜} {v v' : m → 𝕜} {rtr rtr' : 𝕜}
+
+/-- LS1: the normal equations characterise the minimisers of `Φ y = (A y − b)ᵀ P (A y − b)` -/
+theorem C01_spec_normal_iff_minimal (hP : Pᵀ = P) (hpsd : ∀ d, 0 ≤ d ⬝ᵥ P *ᵥ d) (x : n → 𝕜) :
+    Aᵀ *ᵥ (P *ᵥ (A *ᵥ x - b)) = 0 ↔ ∀ y, Phi A b P x ≤ Phi A b P y :=
+  normal_eq_iff_min hP hpsd x
+
+/-- a solver output satisfying `IsLSSolution` minimises `vᵀ P v`, and the reported sum of squares
+    is that minimum -/
+theorem C01_spec_minimal (hP : Pᵀ = P) (hpsd : ∀ d, 0 ≤ d ⬝ᵥ P *ᵥ d)
+    (h : IsLSSolution A b P S x v rtr) :
+    v = A *ᵥ x - b ∧ Aᵀ *ᵥ (P *ᵥ v) = 0 ∧ rtr = v ⬝ᵥ P *ᵥ v
+      ∧ (∀ y, Phi A b P x ≤ Phi A b P y) ∧ rtr = Phi A b P x ∧ ∀ y, rtr ≤ Phi A b P y :=
+  ⟨h.res, h.normal, h.rtr_eq, h.minimal hP hpsd, h.rtr_eq_Phi, h.rtr_minimal hP hpsd⟩
+
+example : IsLSSolution Ex.A Ex.b Ex.P Ex.S Ex.x Ex.v (9 / 4) ∧ Ex.Pᵀ = Ex.P
+    ∧ (∀ d, 0 ≤ d ⬝ᵥ Ex.P *ᵥ d) ∧ (∃ g, Ex.A *ᵥ g = 0 ∧ g ≠ 0) :=
+  ⟨Ex.sol, Ex.P_symm, psd_of_pd Ex.P_pd, Ex.g₀, Ex.g₀_ker⟩
+
+/-- rank-deficient case: among ALL minimisers of the objective (equivalently all solutions of the
+    normal equations) the returned x has the smallest sum of squares over the selected unknowns -/
+theorem C01_spec_min_norm (hP : Pᵀ = P) (hpd : ∀ d, d ≠ 0 → 0 < d ⬝ᵥ P *ᵥ d)
+    (h : IsLSSolution A b P S x v rtr) :
+    (∀ y, Aᵀ *ᵥ (P *ᵥ (A *ᵥ y - b)) = 0 → normS S x ≤ normS S y)
+      ∧ (∀ y, (∀ z, Phi A b P y ≤ Phi A b P z) → normS S x ≤ normS S y) :=
+  ⟨h.min_norm hpd, h.min_norm_among_minimisers hP hpd⟩
+
+/-- LS3: the second criterion is EQUIVALENT to S-orthogonality to the kernel, so `IsLSSolution`
+    is not stronger than the property -/
+theorem C01_spec_min_norm_iff (hpd : ∀ d, d ≠ 0 → 0 < d ⬝ᵥ P *ᵥ d) (S : Finset n)
+    (hx : Aᵀ *ᵥ (P *ᵥ (A *ᵥ x - b)) = 0) :
+    (∀ y, Aᵀ *ᵥ (P *ᵥ (A *ᵥ y - b)) = 0 → normS S x ≤ normS S y)
+      ↔ ∀ g, A *ᵥ g = 0 → ∑ i ∈ S, x i * g i = 0 :=
+  min_norm_iff_sorth hpd S hx
+
+example : (∀ d, d ≠ 0 → 0 < d ⬝ᵥ Ex.P *ᵥ d) ∧ Ex.Aᵀ *ᵥ (Ex.P *ᵥ (Ex.A *ᵥ Ex.x - Ex.b)) = 0
+    ∧ normS Ex.S Ex.x < normS Ex.S Ex.x' :=
+  ⟨Ex.P_pd, Ex.sol.normalEq, by
+    simp [normS, Ex.S, Ex.x, Ex.x', sum_pair (show (0 : Fin 3) ≠ 1 by decide)]; norm_num⟩
+
+/-- if S resolves the defect the answer is unique: any two outputs satisfying `IsLSSolution`
+    for the same (A, b, P, S) — e.g. of two different algorithms — coincide -/
+theorem C01_spec_unique (hpd : ∀ d, d ≠ 0 → 0 < d ⬝ᵥ P *ᵥ d)
+    (hS : ∀ g, A *ᵥ g = 0 → (∀ i ∈ S, g i = 0) → g = 0)
+    (h : IsLSSolution A b P S x v rtr) (h' : IsLSSolution A b P S x' v' rtr') :
+    x = x' ∧ v = v' ∧ rtr = rtr' :=
+  h.unique h' hpd hS
+
+example : Resolves Ex.A Ex.S ∧ Resolves Ex.A Ex.S' := ⟨Ex.S_resolves, Ex.S'_resolves⟩
+
+/-- LS4 whitening: with `C = L Lᵀ`, `L⁻¹ L = 1`, `C P = 1`, a solution of the homogenised problem
+    `(L⁻¹A, L⁻¹b, 1)` — what the full solvers are given by `Adj` and `LocalNetwork` — is a solution
+    of the weighted problem `(A, b, P)` with the same x and sum of squares; its residuals are the
+    whitened residuals; objective and normal equations of the two problems coincide -/
+theorem C01_spec_whitening [DecidableEq m] {C L Linv : Matrix m m 𝕜} (hC : C = L * Lᵀ)
+    (hL : Linv * L = 1) (hCP : C * P = 1) {vbar : m → 𝕜}
+    (h : IsLSSolution (Linv * A) (Linv *ᵥ b) 1 S x vbar rtr) :
+    IsLSSolution A b P S x (A *ᵥ x - b) rtr ∧ vbar = Linv *ᵥ (A *ᵥ x - b)
+      ∧ (∀ y, Phi (Linv * A) (Linv *ᵥ b) 1 y = Phi A b P y)
+      ∧ (∀ y, (Linv * A)ᵀ *ᵥ ((1 : Matrix m m 𝕜) *ᵥ ((Linv * A) *ᵥ y - Linv *ᵥ b))
+            = Aᵀ *ᵥ (P *ᵥ (A *ᵥ y - b))) :=
+  have hW := whiten_of_chol hC hL hCP
+  ⟨h.of_whitened hW, h.whitened_residual, whiten_Phi hW, whiten_gradient hW A b⟩
+
+/-- whitening with a general (possibly rectangular) factor `Wᵀ W = P` -/
+theorem C01_spec_whitening_factor [DecidableEq m] [DecidableEq k] {W : Matrix k m 𝕜}
+    (hW : Wᵀ * W = P) {vbar : k → 𝕜} (h : IsLSSolution (W * A) (W *ᵥ b) 1 S x vbar rtr) :
+    IsLSSolution A b P S x (A *ᵥ x - b) rtr ∧ vbar = W *ᵥ (A *ᵥ x - b) :=
+  ⟨h.of_whitened hW, h.whitened_residual⟩
+
+example : Ex.Wᵀ * Ex.W = Ex.P
+    ∧ IsLSSolution (Ex.W * Ex.A) (Ex.W *ᵥ Ex.b) 1 Ex.S Ex.x (Ex.W *ᵥ Ex.v) (9 / 4) :=
+  ⟨Ex.W_gram, Ex.sol_whitened⟩
+
+/-- the weight matrices the models work with are admissible: `P = Wᵀ W` with injective `W` is
+    symmetric positive definite (so the hypotheses above are met by every Cholesky-whitened
+    covariance) -/
+theorem C01_spec_weight_pd [DecidableEq m] {W : Matrix k m 𝕜} (hW : Wᵀ * W = P)
+    (hinj : ∀ d, W *ᵥ d = 0 → d = 0) :
+    Pᵀ = P ∧ (∀ d, 0 ≤ d ⬝ᵥ P *ᵥ d) ∧ ∀ d, d ≠ 0 → 0 < d ⬝ᵥ P *ᵥ d := by
+  subst hW; exact ⟨gram_symm W, gram_psd W, gram_pd W hinj⟩
+
+example : ∀ d : Fin 4 → ℚ, Ex.W *ᵥ d = 0 → d = 0 := Ex.W_inj
+
+/-- the same in the executable vocabulary: for a `Problem K` (sparse rows, packed covariance blocks,
+    1-based regularisation list) and an `Answer K` whose `x`, `r`, `rtr` satisfy `Answer.IsLS`
+    w.r.t. a weight matrix `P` (`p.C * P = 1`), the C01 statement holds for the Mathlib reading
+    `p.A`, `p.b`, `p.S` of the problem — the form in which each solver theorem is used.  The
+    `Scalar` signature is the field's own (`fieldScalar sqrt`, any square-root function). -/
+theorem C01_spec_answer {K : Type} [Field K] [LinearOrder K] [IsStrictOrderedRing K]
+    (sqrt : K → K) (p : Ls.Problem K) (P : Matrix (Fin p.m) (Fin p.m) K) (hP : Pᵀ = P)
+    (hpd : ∀ d, d ≠ 0 → 0 < d ⬝ᵥ P *ᵥ d) (a : Ls.Answer K)
+    (h : @Ls.Answer.IsLS K _ (fieldScalar sqrt) p P a) :
+    letI : Scalar K := fieldScalar sqrt
+    a.rVec p.m = p.A *ᵥ a.xVec p.n - p.b
+      ∧ p.Aᵀ *ᵥ (P *ᵥ a.rVec p.m) = 0
+      ∧ a.rtr = a.rVec p.m ⬝ᵥ P *ᵥ a.rVec p.m
+      ∧ (∀ y, Phi p.A p.b P (a.xVec p.n) ≤ Phi p.A p.b P y)
+      ∧ (∀ y, (∀ z, Phi p.A p.b P y ≤ Phi p.A p.b P z) → normS p.S (a.xVec p.n) ≤ normS p.S y) :=
+  ⟨h.res, h.normal, h.rtr_eq, h.minimal hP (psd_of_pd hpd), h.min_norm_among_minimisers hP hpd⟩
+
+example : @Ls.Answer.IsLS ℚ _ (fieldScalar id) Ex.pEx Ex.P Ex.aEx
+    ∧ @Ls.Problem.IsWeight ℚ _ (fieldScalar id) Ex.pEx Ex.P ∧ Ex.pEx.reg = .subset [1, 2] :=
+  ⟨Ex.aEx_isLS, Ex.pEx_weight, rfl⟩
 
 end Gama.Props.C01
